@@ -254,7 +254,7 @@ pub fn run() -> Report {
 /// "... a function of the data directory and the options only": the same directory and options named in different ways and
 /// run in different process environments. Full product callback (5) x range {whole, -s 1 -e 2} x --verify {off, on} x path
 /// form (absolute / relative / trailing slash / dot components / symbolic links / cwd inside the data directory) x environment
-/// (plain, RAYON_NUM_THREADS unset, a non-English UTF-8 locale with TZ set, logging-related variables, a virtual monotonic clock advancing 4 s / 11 s / 0 s per query, five other hash seeds (iteration order of the std hash maps), directory listings served in reversed / rotated order). The chain contains addresses whose totals exceed 2^53 and consist of one large and seven unit outputs.
+/// (plain, the verbosity options -v / -vv / -vvv, RAYON_NUM_THREADS unset, a non-English UTF-8 locale with TZ set, logging-related variables, a virtual monotonic clock advancing 4 s / 11 s / 0 s per query, five other hash seeds (iteration order of the std hash maps), directory listings served in reversed / rotated order). The chain contains addresses whose totals exceed 2^53 and consist of one large and seven unit outputs.
 /// Compared with the absolute-path plain-environment run: exit status, every file of the dump folder, and the
 /// simplestats / opreturn output (log lines that print a path are dropped).
 fn invocation_forms(rep: &mut Report, root: &std::path::Path) {
@@ -288,6 +288,9 @@ fn invocation_forms(rep: &mut Report, root: &std::path::Path) {
         ("RAYON_NUM_THREADS unset", vec![], 0),
         ("tr_TR locale, TZ", vec![("LC_ALL", "tr_TR.UTF-8"), ("LANG", "tr_TR.UTF-8"), ("TZ", "Pacific/Kiritimati")], 2),
         ("RUST_LOG and COLUMNS set", vec![("RUST_LOG", "trace"), ("COLUMNS", "20"), ("NO_COLOR", "1"), ("TERM", "dumb")], 2),
+        ("-v", vec![("__verbosity", "1")], 2),
+        ("-vv", vec![("__verbosity", "2")], 2),
+        ("-vvv", vec![("__verbosity", "3")], 2),
         ("virtual clock: 4 s per query", vec![("VERIF_CLOCK_STEP", "4000000000")], 2),
         ("virtual clock: 11 s per query", vec![("VERIF_CLOCK_STEP", "11000000000")], 2),
         ("virtual clock: standing still", vec![("VERIF_CLOCK_STEP", "0")], 2),
@@ -321,15 +324,29 @@ fn invocation_forms(rep: &mut Report, root: &std::path::Path) {
                     let mut spec = base_spec.clone();
                     spec.threads = *threads;
                     spec.env.push(("VERIF_PATH_FORM".into(), form.to_string()));
+                    let mut verbose = false;
                     for (k, v) in evars {
-                        spec.env.push((k.to_string(), v.to_string()));
+                        if *k == "__verbosity" {
+                            spec.verbosity = v.parse().unwrap_or(0);
+                            verbose = true;
+                        } else {
+                            spec.env.push((k.to_string(), v.to_string()));
+                        }
                     }
                     let r = wk.run(&spec);
                     acc.states += 1;
                     acc.transitions += 1;
                     acc.count("invocation-form-runs", 1);
                     acc.nontrivial.insert(h8(format!("{}{:?}{}{}{}", cbn, range, verify, form, ename).as_bytes()));
-                    let o = essential(&r);
+                    let mut o = essential(&r);
+                    if verbose {
+                        // more log lines are the point of the option: exit status, files, and the lines that are not log records
+                        let keep = |v: &serde_json::Value| -> Vec<String> { v.as_array().map(|a| a.iter().filter_map(|l| l.as_str()).filter(|l| l.starts_with("height: ") || l.starts_with("   ->") || l.starts_with("SimpleStats")).map(|l| l.to_string()).collect()).unwrap_or_default() };
+                        let (a, b) = (keep(&o["stdout"]), keep(&reference["stdout"]));
+                        if a == b {
+                            o["stdout"] = reference["stdout"].clone();
+                        }
+                    }
                     if o != reference {
                         let what = if o["exit"] != reference["exit"] { "exit-status" } else if o["files"] != reference["files"] { "dump-files" } else { "printed-output" };
                         acc.disagree(&format!("invocation-form:{}-differs", what), format!("{} range {:?} verify {} path form {} env '{}': {} vs absolute-path plain run {}", cbn, range, verify, form, ename, o.to_string().chars().take(300).collect::<String>(), reference.to_string().chars().take(300).collect::<String>()), replay_case(&world, &spec, json!({"must equal": "the run with absolute paths and the plain environment"}), &r, &wk.dir));
